@@ -36,6 +36,7 @@ const (
 	opSleep   = "sleep"   // advance virtual time by N microseconds
 	opAck     = "ack"     // the peer acknowledges the PINGs received so far (only with manual acks)
 	opOverrun = "overrun" // NON-conforming: the peer sends N bytes more than stream S's window allows
+	opPadOnly = "padonly" // the peer sends up to N DATA frames on stream S that carry no payload, only a pad-length byte and P bytes of padding (each consumes 1+P bytes of both windows), as far as the windows allow
 )
 
 type Op struct {
@@ -137,6 +138,13 @@ func genPlan(role string) func(rt *rapid.T) Plan {
 				op = Op{K: opEOS, S: rapid.IntRange(0, 15).Draw(rt, "s")}
 			case w < 88:
 				op = Op{K: opSleep, N: rapid.SampledFrom([]int{1, 10, 100, 1000, 10000, 100000, 1000000}).Draw(rt, "us")}
+			case w < 92:
+				op = Op{K: opPadOnly, S: rapid.IntRange(0, 15).Draw(rt, "s"), P: rapid.SampledFrom([]int{0, 1, 100, 255, 255, 255}).Draw(rt, "pad")}
+				if rapid.IntRange(0, 2).Draw(rt, "pad_burst") == 0 {
+					op.N = rapid.IntRange(1, 8).Draw(rt, "npad")
+				} else {
+					op.N = rapid.IntRange(60, 300).Draw(rt, "npad")
+				}
 			case w < 97:
 				op = Op{K: opAck}
 			case w < 98:
@@ -176,6 +184,7 @@ type stream struct {
 	eosSent  bool
 	overrun  bool // the peer broke the window on purpose; no oracle applies any more
 	queuedSz int
+	padOnly  int64 // bytes of both windows consumed by padding-only frames
 
 	ready  chan *transport.ServerStream
 	steps  chan readStep
@@ -386,6 +395,31 @@ func (e *exec) doOp(op Op) {
 		time.Sleep(time.Duration(op.N) * time.Microsecond)
 	case opAck:
 		e.ackPings()
+	case opPadOnly:
+		s := e.pick(op.S)
+		if s == nil || s.id == 0 || s.eosSent || s.overrun || op.P < 0 || op.P > 255 {
+			return
+		}
+		cost := int64(1 + op.P)
+		waited := false
+		for i := 0; i < op.N && i < 400; i++ {
+			if min(e.led.OutStreamWindow(s.id), e.led.OutConnWindow()) < cost {
+				if waited {
+					break
+				}
+				synctest.Wait() // let grpc-go's WINDOW_UPDATEs arrive, then try once more
+				waited = true
+				i--
+				continue
+			}
+			waited = false
+			e.peer.WriteData(s.id, nil, false, op.P)
+			e.class("padding_only_frames")
+			s.padOnly += cost
+		}
+		if s.padOnly >= int64(e.led.OutIWS())/4 {
+			e.class("padding_only_quarter_window")
+		}
 	case opOverrun:
 		s := e.pick(op.S)
 		if s == nil || s.id == 0 || s.eosSent || s.overrun {
@@ -743,7 +777,7 @@ func runPlan(t *testing.T, p Plan) (out outcome) {
 	return out
 }
 
-const rule = "plans of <=32/120 ops over <=3/8 streams: the peer queues gRPC messages (0 B .. 3x the stream window, capped at 256 KiB/2 MiB; sizes around the window +-3) with DATA chunk sizes 1..16384 and padding {none,0,1,7,100,255}, " +
+const rule = "plans of <=32/120 ops over <=3/8 streams: the peer queues gRPC messages (0 B .. 3x the stream window, capped at 256 KiB/2 MiB; sizes around the window +-3) with DATA chunk sizes 1..16384 and padding {none,0,1,7,100,255}, bursts of 1..300 padding-only DATA frames (no payload, pad 0..255), " +
 	"the application reads in plan-controlled steps (whole messages like grpc, or chunks of 1..300000 bytes), END_STREAM, virtual sleeps 1us..1s and manual/immediate PING acks (drive the BDP estimator), 25% of the ops without waiting for quiescence; " +
 	"configured stream/connection windows in {default, 64 KiB, 1 MiB, random, ~2^31-1}, BDP estimation on (2/3) or off; rare non-conforming overrun ops (own class, no oracle on that stream). " +
 	"non-trivial = a message larger than the stream window was queued and the application was observed blocked in a read waiting for the peer (i.e. it was read in several frames), or padded frames were used while a reader was blocked"
@@ -754,7 +788,7 @@ func run(t *testing.T, p Plan) vk.Result {
 		return vk.Result{Discard: true}
 	}
 	var cl []string
-	for _, c := range []string{"message_larger_than_window", "padded_frames", "reader_blocked_waiting_for_peer", "blocked_read_larger_than_window", "bdp_window_growth", "bdp_ping_seen",
+	for _, c := range []string{"message_larger_than_window", "padded_frames", "padding_only_frames", "padding_only_quarter_window", "reader_blocked_waiting_for_peer", "blocked_read_larger_than_window", "bdp_window_growth", "bdp_ping_seen",
 		"advertised_initial_window_lowered", "large_stream_window_update", "transfer_complete", "nonconforming_overrun", "overrun_rejected"} {
 		if out.classes[c] {
 			cl = append(cl, c)
